@@ -8,9 +8,11 @@ From VP Require Import Model.Protocol Model.Replay Exec.Common.
 
 Definition V := list Z.
 Definition veqb : V -> V -> bool := list_eqb Z.eqb.
-Definition Mx := N.
-Definition solve (_ _ : unit) (phi yw : Mx) : option N := Some phi.
-Definition jaccol (_ : unit) (c : N) (d : Mx) : N := d.
+(* a matrix: its tag and whether all its entries are finite (the weighted basis matrix is
+   decomposed only if finite) *)
+Definition Mx := (N * bool)%type.
+Definition solve (_ _ : unit) (phi yw : Mx) : option N := if snd phi then Some (fst phi) else None.
+Definition jaccol (_ : unit) (c : N) (d : Mx) : N := fst d.
 
 Notation rmodel := (@replay_model V Mx veqb).
 Notation problem := (problem Mx N unit unit (rstate V Mx)).
@@ -23,7 +25,7 @@ Inductive xobs :=
 
 Definition fresh (np nout : nat) (init : V) (log : list (lentry V Mx)) (cached : option N) : problem :=
   {| p_st := {| r_log := log; r_cur := init; r_bad := false; r_np := np; r_nout := nout |};
-     p_Yw := 0%N; p_eps := tt; p_w := tt; p_cached := cached |}.
+     p_Yw := (0%N, true); p_eps := tt; p_w := tt; p_cached := cached |}.
 
 (* the problem right after build(): one update at the model's own parameters *)
 Definition built (np nout : nat) (init : V) (log : list (lentry V Mx)) : problem :=
@@ -61,3 +63,52 @@ Definition proto_check (np nout : nat) (init : V) (log : list (lentry V Mx))
   if (code =? 0)%N then
     if replay_clean (p_st p) then 0%N :: prov else 1%N :: prov
   else code :: prov.
+
+(* ------------------------------------------------------------------------------------------ *)
+(* fits: the recorded optimizer run as a script, replayed through Model/LMDriver.v *)
+From VP Require Import Model.LMDriver.
+
+Definition dec_true (_ _ : N) : bool := true.
+
+Inductive xfit :=
+| XFit (ok : bool) (term : reason) (evals : nat) (params : V) (has_resid has_coef : bool).
+
+Definition reason_kind (r : reason) : N :=
+  match r with
+  | User => 1 | Numerical => 2 | ResidualsZero => 3 | Orthogonal => 4
+  | Converged _ _ => 5 | NoImprovementPossible => 6 | LostPatience => 7
+  | NoParameters => 8 | NoResiduals => 9 | WrongDimensions => 10
+  end%N.
+Definition reason_same (a b : reason) : bool :=
+  match a, b with
+  | Converged f x, Converged f' x' => Bool.eqb f f' && Bool.eqb x x'
+  | _, _ => (reason_kind a =? reason_kind b)%N
+  end.
+
+(* result: [code; provenance tag + 1 of the final cache (0: absent); 1 if the reported objective
+   belongs to the final parameters; updates; evaluations]
+   code 0 = agreement, 1 = protocol mismatch, 2 = script exhausted, 3 = Ok/Err, 4 = termination,
+   5 = evaluations, 6 = final parameters, 7 = presence of residuals/coefficients,
+   10+i = pre-operation i *)
+Definition fit_check (np nout : nat) (init : V) (log : list (lentry V Mx))
+           (pre : list (op V)) (xs : list xobs) (script : list (choice V)) (x : xfit) : list N :=
+  let '(p0, bs) := run rmodel solve jaccol (built np nout init log) pre in
+  let '(code0, _) := cmp_all 0 bs xs in
+  if negb (code0 =? 0)%N then [code0] else
+  match fit rmodel solve jaccol dec_true script p0, x with
+  | None, _ => [2%N]
+  | Some fr, XFit ok term evals a hr hc =>
+      let '(isok, p', r) := match fr with FitOk p' r => (true, p', r) | FitErr p' r => (false, p', r) end in
+      let code :=
+        first_code
+          [ (Bool.eqb isok ok, 3); (reason_same (termination r) term, 4);
+            (Nat.eqb (evaluations r) evals, 5); (veqb (params rmodel p') a, 6);
+            (Bool.eqb (is_some (p_cached p')) hr && Bool.eqb (is_some (p_cached p')) hc, 7);
+            (replay_clean (p_st p'), 1) ]%N in
+      [ code;
+        match p_cached p' with Some t => (t + 1)%N | None => 0%N end;
+        match objective_at r with
+        | Some xf => if veqb xf (params rmodel p') then 1%N else 0%N
+        | None => 2%N end;
+        N.of_nat (updates r); N.of_nat (evaluations r) ]
+  end.
